@@ -9,6 +9,9 @@ import (
 func BuildScenario(prop, tier string, ch *Chooser, lean bool, s *Sim) (Scenario, string) {
 	switch prop {
 	default:
+		if prop == "C05" {
+			s.MaxSteps = 60000
+		}
 		c := DrawCore(prop, tier, ch, lean, s)
 		return c, c.Describe()
 	}
@@ -29,6 +32,9 @@ func (c *Core) Describe() string {
 			kinds = append(kinds, []string{"send", "close", "halfclose", "reset", "pause", "resume", "handshake"}[st.Kind])
 		}
 		fmt.Fprintf(&b, " %s{reqs=%d bytes=%d window=%d late=%v steps=%s}", cl.name(), n, bytes, cl.Window, cl.Late, strings.Join(kinds, ","))
+	}
+	if len(c.mutants) > 0 {
+		fmt.Fprintf(&b, " recovery-disabled=%v mutants: %s", cfg.NoRecovery, strings.Join(c.mutants, " | "))
 	}
 	return b.String()
 }
@@ -53,6 +59,17 @@ func Nontrivial(prop string, s *Sim) bool {
 		return c != nil && c.stopCalls > 0
 	case "C17":
 		return p["C17-ready-observed-true"] > 0 || (c != nil && c.runErr != "")
+	case "C13":
+		return p["C13-starttls-session"] > 0
+	case "C18":
+		for k, v := range p {
+			if strings.HasPrefix(k, "C18-offending") && v > 0 {
+				return true
+			}
+		}
+		return false
+	case "C02":
+		return p["C02-single-point-mutants"]+p["C02-byte-damage"]+p["C02-double-point-mutants"] > 0
 	case "C07":
 		n := 0
 		for _, v := range s.Faults {
